@@ -60,7 +60,7 @@ def _unparse(n: ast.AST, width: int = 70) -> str:
     return ' '.join(ast.unparse(n).split())[:width]
 
 
-def _immutable(e: ast.expr | None, long_names: set[str] | None = None) -> bool:
+def _immutable(e: ast.expr | None, long_names: Any = None, tables: dict | None = None) -> bool:
     """The value is recognisably immutable (or an alias of something that is not data: a class, a function, an import)."""
     if e is None or isinstance(e, (ast.Constant, ast.JoinedStr)):
         return True
@@ -79,20 +79,37 @@ def _immutable(e: ast.expr | None, long_names: set[str] | None = None) -> bool:
         f = ast.unparse(e.func)
         if f in ('cast', 'typing.cast') and len(e.args) == 2 and not e.keywords:
             return _immutable(e.args[1], long_names)
+        if f in ('frozenset', 'tuple') and len(e.args) == 1 and not e.keywords and isinstance(e.args[0], ast.Name) and tables is not None \
+                and e.args[0].id in tables and tables[e.args[0].id]['elements'] and not tables[e.args[0].id]['opaque']:
+            return True
         if f in IMMUTABLE_CALLS or f.split('.')[-1] in FROZEN_CLASSES:
             return all(_immutable(a, long_names) for a in e.args) and all(_immutable(k.value, long_names) for k in e.keywords)
     return False
 
 
-def _elements_immutable(e: ast.expr | None) -> bool:
+def _elements_immutable(e: ast.expr | None, tables: dict | None = None) -> bool:
     """A table display all of whose keys / elements are constants: reading an element hands out nothing that can change."""
     if isinstance(e, ast.Call) and ast.unparse(e.func) in ('cast', 'typing.cast') and len(e.args) == 2:
-        return _elements_immutable(e.args[1])
+        return _elements_immutable(e.args[1], tables)
     if isinstance(e, ast.Dict):
         return all(k is not None and _immutable(k) for k in e.keys) and all(_immutable(v) for v in e.values)
     if isinstance(e, (ast.List, ast.Set)):
         return all(_immutable(x) for x in e.elts)
+    if isinstance(e, ast.Call) and isinstance(e.func, ast.Name) and e.func.id in TABLE_CALLS and not e.keywords and len(e.args) <= 1:
+        # set(TABLE) / list(TABLE) / dict(TABLE) / sorted(TABLE): a new table with (some of) the constants of the old one
+        a = e.args[0] if e.args else None
+        return a is None or _elements_immutable(a, tables) or isinstance(a, ast.Name) and tables is not None and \
+            tables.get(a.id, {}).get('elements') is True and not tables[a.id]['opaque'] or \
+            isinstance(a, (ast.Constant, ast.Tuple)) and _immutable(a)
     return False
+
+
+TABLE_CALLS = {'set', 'dict', 'list', 'sorted'}
+
+
+def _is_table(e: ast.expr | None) -> bool:
+    return isinstance(e, (ast.Dict, ast.List, ast.Set, ast.ListComp, ast.DictComp, ast.SetComp)) or \
+        isinstance(e, ast.Call) and isinstance(e.func, ast.Name) and e.func.id in TABLE_CALLS and not e.keywords and len(e.args) <= 1
 
 
 def _is_type_checking(t: ast.expr) -> bool | None:
@@ -210,11 +227,9 @@ class Census:
                     isinstance(a, ast.Name) and a.id in self.defs or isinstance(a, ast.Lambda)
                     for a in list(val.args) + [k.value for k in val.keywords]):
                 self.decorators.append(f'{where}: line {st.lineno}: {_unparse(st)}')
-            if _immutable(val, set(self.long)):
+            if _immutable(val, set(self.long), self.long):
                 return
-            entry = {'elements': _elements_immutable(val), 'opaque': not isinstance(val, (ast.Dict, ast.List, ast.Set, ast.ListComp,
-                     ast.DictComp, ast.SetComp)),
-                     'cls': cls, 'line': st.lineno}
+            entry = {'elements': _elements_immutable(val, self.long), 'opaque': not _is_table(val), 'cls': cls, 'line': st.lineno}
             if cls is None:
                 prev = self.long.get(name)
                 if prev:
